@@ -59,7 +59,10 @@ Init == /\ table \in Tables
 
 \* the word after a redirection operator is its target: never replaced, and the command prefix goes on after it
 IsTarget == Len(out) > 0 /\ out[Len(out)] = "<"
+\* the third word of a case / for command: there "in" is the reserved word
+ThirdPos == Len(out) >= 2 /\ out[Len(out) - 1] \in {"case", "for"}
 Eligible(h) == /\ ~IsTarget
+               /\ ~(ThirdPos /\ h.tok = "in")
                /\ cmdpos \/ h.chk
                /\ h.tok \in DOMAIN table
                /\ h.tok \notin h.org
